@@ -323,11 +323,23 @@ def own_check_stream(seed, scratch, q):
             open(pth, "wb").write(d)
             items.append(("chk-c%d-%d" % (c, k), pth, pagesize))
     impl, model = imgcheck.parallel_probe(scratch, items)
+    # an image without a verdict of the real check (its probe process died or timed out on an earlier image of the
+    # same chunk, or on this one) is probed again on its own: only a verdict is compared, never the lack of one
+    def noverdict(x):
+        return x == "missing" or x.startswith("died") or x.startswith("notrun")
+    redo = [it for it in items if noverdict(impl.get(it[0], "missing"))]
+    for it in redo[:300]:
+        i2, _ = imgcheck.run_probe(scratch, [it], "own-redo")
+        # (alone, a probe that still dies is the real check aborting on this very image: that is a verdict)
+        impl[it[0]] = i2.get(it[0], "missing")
     problems, counts = [], collections.Counter()
     for iid, pth, _ in items:
         io = impl.get(iid, "missing")
         mm = re.search(r"implcheck=(ok|err)", (model.get(iid) or ("", ""))[1] or "")
         mo = mm.group(1) if mm else ("noheader" if iid in model else "missing")
+        if io == "missing" or io.startswith("notrun"):
+            counts["real=missing model=%s" % mo] += 1
+            continue
         real_ok = io == "chk=ok"
         counts["real=%s model=%s" % ("ok" if real_ok else "reject", mo)] += 1
         if mo == "ok" and not real_ok:
